@@ -7593,6 +7593,12 @@ func (l *Lowerer) lowerConstruct(cons *parser.ConstructExpr, target *[]ir.Statem
 	typeExplicit := true
 	typeHandle, err := l.resolveType(cons.Type)
 	if err != nil {
+		// Only a constructor without template arguments (vec3(...), mat2x2(...),
+		// array(...)) has its type inferred from the arguments; with explicit
+		// template arguments a resolution failure is an error in the program.
+		if nt, ok := cons.Type.(*parser.NamedType); ok && len(nt.TypeParams) > 0 {
+			return 0, err
+		}
 		typeExplicit = false
 	}
 
